@@ -376,7 +376,7 @@ class DictGen:
 
     MUTATIONS = [
         "repeat", "repeat", "change", "change", "change", "delete", "add", "never", "permute",
-        "sibling", "template", "fresh", "section_replace", "listref", "labrea_switch", "nsp", "nsp", "rows", "rows",
+        "sibling", "template", "fresh", "section_replace", "listref", "labrea_switch", "nsp", "nsp", "rows", "rows", "deepkey", "deepkey",
     ]
 
     def mutate(self, prev, hint_read=None, hint_unread=None):
@@ -452,6 +452,16 @@ class DictGen:
             k = r.choice([x for x in SCALAR_KEYS if not (self.cfg.get("tmpl_preset") and x in PRESET_TEMPLATE_TARGETS)] or ["A"])
             o[k] = "{L}"
             o["L"] = [r.choice(["x{C}", "{B}", "{M}", "p{S.X}q"]), r.choice([0, "a"])]
+        elif m == "deepkey" and self.cfg.get("deep_default_section"):
+            x = r.random()
+            if x < 0.5:
+                o["K9"] = {"W": {"Z": r.choice(SCALARS)}}
+            elif x < 0.7:
+                o["K9"] = {"W": r.choice(SCALARS)}
+            elif x < 0.85:
+                o["K9"] = {"W": {"Z": {"x": r.choice(SCALARS)}}}
+            else:
+                o.pop("K9", None)
         elif m == "rows" and self.cfg.get("row_keys"):
             # a list of sections (0-3 rows); one row changed / dropped / appended
             rows = copy.deepcopy(o.get("R")) if isinstance(o.get("R"), list) else []
